@@ -6,6 +6,9 @@
 (*     duplicate code, one with a bad children byte, the middle of a       *)
 (*     table, the end of the section, beyond the end), under each cache    *)
 (*     strategy; TLC checks cache get = direct parse for every offset.     *)
+(*  mode "repop": one cache taken through [set;] populate(section X);      *)
+(*     populate(section Y # X, same layout, different tables); TLC checks  *)
+(*     get = direct parse of the current section Y.                        *)
 (*  mode "die": every DIE byte stream of <= MaxTok tokens (entries with    *)
 (*     0..3 attributes, null, an unknown code, a truncated entry); TLC     *)
 (*     checks that a reused buffer holds what a fresh one holds after each *)
